@@ -171,3 +171,10 @@ Definition np_div_int (v : list Qc) (n : Z) : result (list Qc) :=
   if (n =? 0)%Z then
     (if forallb (qeqb 0) v then match v with [] => Ok [] | _ => Err E_NAN end else Err E_UNMODELLED)
   else Ok (map (fun x => x / qofZ n) v).
+(* ---- vocabulary of the translation of ModelEvaluation.__init__ (C20_EV_INIT) ---- *)
+Definition set_ev_names (e : evaluation) (v : list (list Z)) : evaluation :=
+  {| ev_preds := ev_preds e; ev_obs := ev_obs e; ev_chains := ev_chains e; ev_names := v |}.
+(* len(predictions.shape) for predictions handed over as a list of rows and a claimed number of columns: it is a 2-d array
+   with that many columns exactly when every row has that many entries (any other value only has to differ from 2) *)
+Definition ndim_of (ncols : nat) (p : list (list Qc)) : Z :=
+  if forallb (fun r => Nat.eqb (length r) ncols) p then 2%Z else 1%Z.
